@@ -5,7 +5,7 @@ import os
 
 PROP = {
     "bin": "c01",
-    "coq_targets": ["theories/Isa/C01Check", "theories/Isa/X86Proofs", "theories/Isa/X86Tie", "theories/Isa/X86SimMem", "theories/Isa/X86SimStack", "theories/Isa/X86SimCarry", "theories/Isa/X86SimMore", "theories/Isa/X86SimXchg", "theories/Isa/X86SimMul", "theories/Isa/X86SimShift", "theories/Isa/X86SimRot", "theories/Isa/X86SimCtl", "theories/Isa/X86SimBt", "theories/Isa/X86SimCall"],
+    "coq_targets": ["theories/Isa/C01Check", "theories/Isa/X86Proofs", "theories/Isa/X86Tie", "theories/Isa/X86SimMem", "theories/Isa/X86SimStack", "theories/Isa/X86SimCarry", "theories/Isa/X86SimMore", "theories/Isa/X86SimXchg", "theories/Isa/X86SimMul", "theories/Isa/X86SimShift", "theories/Isa/X86SimRot", "theories/Isa/X86SimCtl", "theories/Isa/X86SimBt", "theories/Isa/X86SimCall", "theories/Isa/X86SimCmov"],
     "n": {"quick": int(os.environ.get("C01_N", "2400")), "thorough": 40000},
     "theorems": ["reg_get_set_correct", "reg_set_prefix_refuted", "of_add_correct", "of_sub_correct", "cf_sub_correct",
                  "cf_add_correct", "sf_correct", "set_zf_den", "set_sf_den", "set_cf_den", "set_of_den", "lift_mov_reg_reg_correct",
@@ -14,7 +14,7 @@ PROP = {
                  "ck_tie_is_syntactic_tie", "cc_condition_correct", "setcc_sim", "movx_sim", "addr_expr_correct", "lea_sim", "mem_load_spec", "mem_store_spec", "mov_load_sim", "mov_store_sim", "add_load_sim", "sub_load_sim",
                  "cmp_load_sim", "logic_load_sim", "movx_load_sim", "add_rmw_sim", "sub_rmw_sim", "tie_transfers_when", "logic_rmw_sim", "cmp_mem_sim", "incdec_rmw_sim", "push_sim", "pop_sim", "push_mem_sim", "pop_mem_sim",
                  "adc_sim", "adc_load_sim", "adc_rmw_sim", "sbb_sim", "sbb_load_sim", "sbb_rmw_sim",
-                 "test_sim", "test_mem_sim", "neg_sim", "neg_rmw_sim", "not_sim", "not_rmw_sim", "xchg_sim", "xchg_mem_sim", "xadd_sim", "xadd_mem_sim", "imul2_sim", "imul3_sim", "shift_sim", "shift1_sim", "rot_sim", "rot1_sim", "il_run_block_goto", "jmp_rel_sim", "jmp_ind_sim", "ret0_sim", "ret_imm_sim", "jcc_sim", "jcxz_sim", "loop_sim", "bt_sim", "call_rel_sim", "call_ind_sim"],
+                 "test_sim", "test_mem_sim", "neg_sim", "neg_rmw_sim", "not_sim", "not_rmw_sim", "xchg_sim", "xchg_mem_sim", "xadd_sim", "xadd_mem_sim", "imul2_sim", "imul3_sim", "shift_sim", "shift1_sim", "rot_sim", "rot1_sim", "il_run_block_goto", "jmp_rel_sim", "jmp_ind_sim", "ret0_sim", "ret_imm_sim", "jcc_sim", "jcxz_sim", "loop_sim", "bt_sim", "call_rel_sim", "call_ind_sim", "cmov_sim"],
     "rule": "instruction encodings enumerated from the opcode tables of harness/src/bin/c01.rs (mnemonic x operand size 8/16/32/64(/128) x "
             "register/memory/immediate forms x legacy high-byte registers x rep/repne x both modes, plus 1 076 PRIORITY forms -- 412 operand-aliasing forms (same-register pairs, sub-register-of-destination sources, base/index = destination), 212 address-size-prefixed forms (amd64 0x67 32-bit and x86 0x67 16-bit addressing for lea/mov/add and the bit-string forms bt/bts/btr/btc m,r), 425 boundary-immediate forms (every accepted instruction with an imm8 count/selector -- rol/ror/shl/shr/sar, shld/shrd, bt/bts/btr/btc, pslldq/psrldq, pshufd -- with {0,1,size-1,size,size+1,15,16,17,31,32,33,63,64,65,0x7f,0x80,0xff} per operand size (a reduced list in 32-bit mode), ret imm16 boundaries; since round 7 also jcxz/jecxz/jrcxz/loop* in every flavour of both modes, with (e/r)cx = 0 and = 1 in the first two states, and ret/ret imm16 in both modes) -- that are visited first, interleaved 1:1 with the rest, so the quick tier (2 400 encodings) contains all of them; cl counts are sampled from the same boundary list; about 6 300 forms); per memory operand the six states cycle through plain / wrapping (index with the top address bit set, base solved modulo 2^asz so that base+index*scale+disp wraps 2^16, 2^32 or 2^64 into a scratch page) / boundary-index scenarios, prefixed registers carry garbage above the address width, lea sums are placed at wrap-by-a-little, 2^asz-1 and 2^(asz-1), bit-string offsets of narrow-addressed bt* are a small amount plus a multiple of 2^(asz+3) (the element is mapped only if the whole address wraps at the address width), visited in a "
             "seed-dependent permutation, wrapping around with fresh operands/states when n exceeds the table; each encoding with 6 "
@@ -35,16 +35,15 @@ PROP = {
         "Forms: mov, add, sub, cmp, and, or, xor, adc, sbb in all three operand positions (r <- r|imm, r <- [m], [m] <- r|imm), test r|[m], r|imm; inc/dec/neg/not r and [m]; xchg and "
         "xadd r,r and [m],r (incl. ONE register for both operands); imul r,r|[m] and imul r,r|[m],imm; shl/shr/sar/rol/ror r|[m] by imm8, cl and the implicit 1 of the D0/D1 encodings; "
         "bt/bts/btr/btc r,r|imm8 and [m],imm8 (offset modulo the operand size); setcc r8 (14 codes that do not read PF), movzx/movsx/movsxd from register and from memory, "
-        "lea r,[base+index*scale+disp], push r|imm|[m], pop r|[m]; control transfers: jmp rel, jmp r|[m], ret and ret imm16 (both modes), jcc (14 codes without PF, incl. target = "
-        "fall-through), jcxz/jecxz, loop/loope/loopne (Goto variant of the one-block runner lemma, guarded successor lists, the three-block graph of a conditional jump); all sub-register "
+        "lea r,[base+index*scale+disp], push r|imm|[m], pop r|[m]; control transfers: jmp rel, jmp r|[m], call rel, call r|[m] (register other than the stack pointer), ret and ret imm16 (both modes), jcc (14 codes without PF, incl. target = "
+        "fall-through), jcxz/jecxz/jrcxz, loop/loope/loopne, cmovcc r,r (14 codes; incl. the 32-bit zero-extension in long mode when the condition is false) (Goto variant of the one-block runner lemma, guarded successor lists, the three-block graph of a conditional jump); all sub-register "
         "kinds, both modes, every address size incl. the 0x67 prefix. Memory/stack forms are proved under the state condition that the accessed bytes do not cross the end of the address "
-        "space of the operand's address size (no_wrap / push_no_wrap / pop_no_wrap; the spec wraps there, Sem faults). In the quick tier: 1 796 of 2 400 encodings (74.8 %, seed 1; 1 792 / "
-        "1 818 / 1 828 with seeds 2-4; evidence extra.stats['encodings:sim-theorem-and-tie']); about 10-17 more (xor x,x lifted to the constant 0; setp/setnp; jp/jnp) have the tie "
+        "space of the operand's address size (no_wrap / push_no_wrap / pop_no_wrap; the spec wraps there, Sem faults). In the quick tier: 1 810 of 2 400 encodings (75.4 %, seed 1; 1 826 / "
+        "1 826 / 1 851 with seeds 2-4; per mnemonic class in extra.stats['byclass:<class>:<kind>']; evidence extra.stats['encodings:sim-theorem-and-tie']); 45 more (xor x,x lifted to the constant 0; setp/setnp; jp/jnp; cmovcc r,[m] and cmovp/cmovnp; call rsp) have the tie "
         "but no theorem. Also proved for all values: X86Register::get/set, set_zf/sf/of/cf, cc_condition for all 16 codes, Mode::operand_value address expressions = X86.ea, "
         "Sem.mem_load/mem_store = X86 mem_rd/mem_wr at 8/16/32/64 bits",
         "NOT mirrored / no theorem (processor + spec on sampled states only): absolute and rip-relative memory operands (no base, no index) of every form; shld/shrd, cmpxchg, "
-        "one-operand mul/imul, div/idiv, the bit-string form bt* [m],r, bsf/bsr, string instructions, cmovcc (graphs with a guarded assignment), call rel/indirect (the mirror has no "
-        "instruction length for the return address), leave, cbw..cqo, flag instructions, SSE; jrcxz is not accepted by the lifter (no translator arm; outside the property)",
+        "one-operand mul/imul, div/idiv, the bit-string form bt* [m],r, bsf/bsr, string instructions, leave, cbw..cqo, flag instructions, SSE (the Coq operand type does not distinguish rip-relative from absolute operands, so neither is mirrored)",
         "processor + specification comparison on sampled states only ([D]): every other accepted form of the core classes (ALU incl. adc/sbb/test/neg/not, all memory forms, movzx/movsx/movsxd/lea/xchg/push/pop/call/ret/leave, jmp/jcc/setcc/cmovcc/loop/jecxz, shl/shr/sar/rol/ror/shld/shrd, mul/imul/div/idiv, cbw..cqo, bt/bts/btr/btc, bsf/bsr, movs/cmps/stos/lods/scas with rep, clc/stc/cmc/cld/std)",
         "architecturally undefined (form, state) combinations are never compared: X86.step returns XUnspec there and the oracle is silent (only the tie is evaluated) -- "
         "shld/shrd r/m16 with a masked count above 16 (imm8 or cl; the only count > operand size combination that exists), besides the per-component undefined results "
@@ -57,9 +56,9 @@ PROP = {
                   "with the host processor's result for the same bytes (amd64) and with the Coq ISA specification X86.step (both modes); a sort error at lift or run time is a failure. "
                   "Unbounded Coq theorems (all machine states, all embedding IL states) against X86.step, transferred to the real lifter's dumped IL and successor list by a syntactic tie checked "
                   "each run, for mov/add/sub/cmp/and/or/xor/adc/sbb/test in every operand position, inc/dec/neg/not, xchg/xadd, imul (2- and 3-operand), shl/shr/sar/rol/ror (imm8, cl, 1), "
-                  "bt/bts/btr/btc (offset modulo size), setcc (14 codes), movzx/movsx, lea, push/pop, jmp rel/indirect, ret/ret imm16, jcc (14 codes), jcxz/jecxz, loop*: "
-                  "1 796 of the 2 400 quick-tier encodings (74.8 %); memory and stack forms under a no-address-wrap condition on the state. The other 25 % (absolute/rip-relative operands, "
-                  "shld/shrd, mul/div, bit strings, string instructions, cmovcc, call, SSE) rest on the sampled-state comparison only.",
+                  "bt/bts/btr/btc (offset modulo size), setcc (14 codes), movzx/movsx, lea, push/pop, jmp and call rel/indirect, ret/ret imm16, jcc (14 codes), jcxz/jecxz/jrcxz, loop*, cmovcc r,r: "
+                  "1 810 of the 2 400 quick-tier encodings (75.4 %); memory and stack forms under a no-address-wrap condition on the state. The other 25 % (absolute/rip-relative operands, "
+                  "shld/shrd, mul/div, bit strings, string instructions, cmovcc from memory, SSE) rest on the sampled-state comparison only.",
     "level_note": "Differential against the processor for breadth (sampled states), proof for the helper layer only. Trusted: Coq kernel + vm_compute, the CPU and the native runner, "
                   "the ISA transcription (validated against the CPU each run), the harness encoder/printer, Exec/Sem.v.",
 }
